@@ -85,6 +85,8 @@ class Facts:
             # helpers spliced into their callers access the caller's places through the references they were handed
             from . import refforward
             self.forwarded = refforward.forward(self.raw, {caller for caller, callee in self.inlined})
+            from . import normalize as _nz
+            _nz.reflatten(self.raw)
         self.bodies = [Body(b, self) for b in self.raw["bodies"]]
         self.by_path = defaultdict(list)
         for b in self.bodies:
